@@ -455,6 +455,10 @@ func raceB1(t *testing.T) (res raceResult) {
 		holder.OnSuccess()
 		c := <-g.parked
 		g.arm(false, false)
+		// a second caller arrives meanwhile (the token is taken): it goes to sleep behind the first
+		done2 := make(chan ans, 1)
+		go func() { l, ok := bl.Acquire(context.Background()); done2 <- ans{l, ok} }()
+		synctest.Wait()
 		cancel()
 		synctest.Wait()
 		close(c)
@@ -475,14 +479,41 @@ func raceB1(t *testing.T) (res raceResult) {
 			res.Failed = true
 			res.Detail = fmt.Sprintf("%d token(s) held at the delegate, %d caller(s) hold one: the grant that raced with the cancellation was dropped without being released", b, holders)
 		}
+		// whatever the first caller was answered: if its token is free again, the second caller must not be left asleep
+		select {
+		case a := <-done2:
+			if a.ok {
+				a.l.OnIgnore()
+			}
+		default:
+			if st.GetBusyCount() == 0 {
+				extraRace = append(extraRace, raceResult{"blocking:lost-wakeup:silent-release", "the grant that raced with the cancellation was given back without waking anybody: a second caller sleeps with 0/1 tokens held", true})
+			}
+		}
 		if got != nil {
 			got.OnIgnore()
+		}
+		synctest.Wait()
+		select {
+		case a := <-done2:
+			if a.ok {
+				a.l.OnIgnore()
+			}
+		default:
 		}
 		synctest.Wait()
 		if st.GetBusyCount() == 0 { // (a leaked token would block this clean-up call for ever)
 			if h, ok := bl.Acquire(context.Background()); ok {
 				h.OnIgnore()
 			}
+		}
+		synctest.Wait()
+		select {
+		case a := <-done2:
+			if a.ok {
+				a.l.OnIgnore()
+			}
+		default:
 		}
 		synctest.Wait()
 	})
@@ -1251,7 +1282,7 @@ func runRaces(t *testing.T, rep *Report, races ...func(*testing.T) raceResult) {
 func TestC10Races(t *testing.T) {
 	rep := NewReport("C10races")
 	defer rep.Write(t)
-	runRaces(t, rep, raceF8, raceF8deadline, raceF8poll, raceB2, raceF9a, raceF9b, raceF9c, raceQ2, raceP1, raceQ4, raceB3, raceL1)
+	runRaces(t, rep, raceF8, raceF8deadline, raceF8poll, raceB2, raceF9a, raceF9b, raceF9c, raceQ2, raceP1, raceQ4, raceB3, raceL1, raceB1, raceQ1)
 }
 func TestC12Races(t *testing.T) {
 	rep := NewReport("C12races")
